@@ -68,3 +68,21 @@ register("C16", "simlab.profiles.c16", "exploration",
          assumptions=COMMON_ASSUMPTIONS + ["defining relations (ii) and builder checks (iii) are sampled inputs with the strength of seeded random testing; only history independence (i) is a schedule property",
                                            "relations involving products at the truncation edge are compared on the sub-block unaffected by truncation"],
          seams=["shared mutable BasisSet instances (per-instance _recursion_flag) under a schedule containing raising calls"], design_ref="4/C16")
+
+register("C18", "simlab.profiles.c18", "exploration",
+         budgets={"quick": dict(runs=1200, timeout=120), "thorough": dict(runs=40000, timeout=300)},
+         rule=("each run = 10-30 kernel invocations (expm_krylov / svd_qn / eigh_qn) on generated inputs with scheduled LAPACK failures and "
+               "RNG positions.  non-trivial = dimension >= 2 (krylov) or >= 4 entries (svd); distinct = distinct (kernel, size, spectrum/label "
+               "pattern, start vector kind, dt kind, block size, mode flags, fault armed, dtype) tuples"),
+         assumptions=COMMON_ASSUMPTIONS + ["scipy.linalg.expm / svdvals are the references", "krylov tolerance 2e-6 relative to max(|v|,|exp(dt A)v|) is calibrated on the clean tree (max measured/allowed reported in evidence); the library's own stopping rule is allclose(rtol=1e-5, atol=1e-8) between successive iterates"],
+         seams=["SimLAPACK (scipy.linalg.svd as seen from svd_qn; eigh_tridiagonal as seen from krylov)", "SimRNG (basis completion in add_orthonormal_basis)", "block_size knob"],
+         design_ref="4/C18")
+
+register("C01", "simlab.profiles.c01", "exploration",
+         budgets={"quick": dict(runs=960, timeout=120, xclass=8), "thorough": dict(runs=30000, timeout=300, xclass=64)},
+         rule=_CHAIN_RULE + "; for C01 the sessions are dominated by Mpo construction (three algorithms, offsets) on generated models/term lists and by "
+              "sequences of adjacent-site swaps carried by one operator object, interleaved with copies",
+         assumptions=COMMON_ASSUMPTIONS + ["the input dimension (models, term lists) is sampled with the strength of seeded random testing; the simulation adds swap histories, "
+                                           "copy independence, RNG-stream and hash-seed independence of construction"],
+         seams=_CHAIN_SEAMS + ["SimRNG monitor (construction must not consume the global stream)", "PYTHONHASHSEED classes (tensors must be bit-identical across classes)"],
+         design_ref="4/C01")
